@@ -748,8 +748,9 @@ def run(ctx):
     if okl:
         L_ = lg_[0][1]['_l_']
         sets_ = find(f'_s_.layered = {L_}', lbody)
+        from ..core.canon import ct as _ct
         okl = len(sets_) >= 1 and all(any(
-            has(f'{L_} is not None', t_) for t_, _p in au.guards_of(n_, rs))
+            _ct(f'{L_} is not None') in g_ for g_ in au.guard_texts(n_, rs))
             for n_, _b in sets_)
     ctx.check('C18.Q2.routing', 'cli.run --load: layered only changed when '
               'given', okl, 'the loaded simulation gets layered = '
